@@ -107,9 +107,16 @@ func (e *Engine) callBuiltin(st *State, fr *Frame, b *ssa.Builtin, args []Value,
 		}
 		return retExit(st, r)
 	case "ssa:wrapnilchk":
-		if p, ok := args[0].(PtrV); ok && p.IsNil() {
-			e.reportPanic(st, c.True, "value method called through nil pointer", pos)
-			return []exit{{st: st, kind: exitPanic, pmsg: "nil pointer dereference (wrapnilchk)"}}
+		if p, ok := args[0].(PtrV); ok {
+			if p.IsNil() {
+				e.reportPanic(st, c.True, "value method called through nil pointer", pos)
+				return []exit{{st: st, kind: exitPanic, pmsg: "nil pointer dereference (wrapnilchk)"}}
+			}
+			if p.NilIf != nil {
+				e.mustHold(st, c.Not(p.NilIf), "value method called through nil pointer", pos)
+				p.NilIf = nil
+				return retExit(st, p)
+			}
 		}
 		return retExit(st, args[0])
 	case "clear":
